@@ -85,7 +85,7 @@ fn continuation<Q: QueueApi>(st: &mut State<Q>, seed: u64, second: Option<(Cb, u
         };
         // leaking iterators inside a continuation would blur the ledger verdict
         let op = match op {
-            Op::IterMut { n, writes, touch, via_ref, .. } => Op::IterMut { n, writes, touch, leak: false, via_ref },
+            Op::IterMut { n, writes, touch, via_ref, back, .. } => Op::IterMut { n, writes, touch, leak: false, via_ref, back },
             Op::Drain { front, back, .. } => Op::Drain { front, back, leak: false },
             o => o,
         };
@@ -128,7 +128,7 @@ fn continuation<Q: QueueApi>(st: &mut State<Q>, seed: u64, second: Option<(Cb, u
     }
     run(st, &Op::Remove { id: 101, k: true }, cn);
     run(st, &Op::Change { id: 103, ord: -5, k: false }, cn);
-    run(st, &Op::IterMut { n: 3, writes: vec![Some(1), None, Some(7)], touch: false, leak: false, via_ref: false }, cn);
+    run(st, &Op::IterMut { n: 3, writes: vec![Some(1), None, Some(7)], touch: false, leak: false, via_ref: false, back: 0 }, cn);
     run(st, &Op::Retain { pred: Pred::IdMod { m: 2, mask: 1 } }, cn);
     // observers and whole-queue operations on the possibly inconsistent queue
     for op in [Op::Observe, Op::EqCheck, Op::IntoVecCheck, Op::CloneSwap, Op::Shrink, Op::Convert, Op::Serde { via_other: false }] {
@@ -263,7 +263,7 @@ fn gen_fault_op(rng: &mut Rng, kind: Kind, n: usize, ids: u32) -> Op {
         13 => Op::PopIf { end, accept: rng.chance(1, 2), rewrite: if rng.chance(1, 2) { Some(ord) } else { None }, touch: false },
         14 => Op::Retain { pred: Pred::IdMod { m: 3, mask: rng.next_u64() } },
         15 => Op::RetainMut { pred: if rng.chance(1, 2) { Pred::All } else { Pred::IdMod { m: 2, mask: rng.next_u64() } }, rewrite: Rewrite::Affine { mul: 3, add: 1, m: 5 } },
-        16 => Op::IterMut { n: rng.below(n + 2), writes: (0..n + 1).map(|_| if rng.chance(1, 2) { Some(rng.range(0, 5)) } else { None }).collect(), touch: false, leak: rng.chance(1, 4), via_ref: false },
+        16 => Op::IterMut { n: rng.below(n + 2), writes: (0..n + 1).map(|_| if rng.chance(1, 2) { Some(rng.range(0, 5)) } else { None }).collect(), touch: false, leak: rng.chance(1, 4), via_ref: false, back: rng.below(3) },
         17 | 18 => {
             let m = if rng.chance(1, 2) { rng.below(6) } else { rng.below(40) };
             let pairs = (0..m).map(|_| (rng.below(ids as usize + 6) as u32, rng.range(0, 4))).collect();
@@ -322,7 +322,7 @@ pub fn mode_faults(a: &Args) -> i32 {
         let op = gen_fault_op(&mut rng, kind, n, ids);
         let op = if a.u("noleak", 0) == 1 {
             match op {
-                Op::IterMut { n, writes, touch, via_ref, .. } => Op::IterMut { n, writes, touch, leak: false, via_ref },
+                Op::IterMut { n, writes, touch, via_ref, back, .. } => Op::IterMut { n, writes, touch, leak: false, via_ref, back },
                 Op::Drain { front, back, .. } => Op::Drain { front, back, leak: false },
                 o => o,
             }
